@@ -277,3 +277,46 @@ func VerifC16Respec() {
 	verifrt.Assert(err == nil && puller.calls == 2 && deployer.calls == 2, "C16/unchanged-package-left-alone")
 	verifrt.Reach("respec-changed")
 }
+
+// VerifC16Wiring: the Package controllers as wired by their real constructors (namespaced and cluster-scoped): a
+// paused (Cluster)Package pauses the ObjectDeployment of the matching kind and does not pull.
+func VerifC16Wiring() {
+	cluster := verifrt.Bool("clusterScoped")
+	c := verifk8s.NewClient()
+	puller := &vPuller{}
+	var ctl *GenericPackageController
+	ns, depKind := "ns", "ObjectDeployment"
+	if cluster {
+		ns, depKind = "", "ClusterObjectDeployment"
+		ctl = NewClusterPackageController(c, verifk8s.NewClient(), logr.Discard(), vScheme(), puller, nil, nil, nil)
+		p := &corev1alpha1.ClusterPackage{}
+		p.Name, p.UID, p.Generation = "pkg", "uid-pkg", 3
+		p.Spec.Image, p.Spec.Paused = "img:v1", true
+		c.Put(p)
+		d := &corev1alpha1.ClusterObjectDeployment{}
+		d.Name = "pkg"
+		c.Put(d)
+	} else {
+		ctl = NewPackageController(c, verifk8s.NewClient(), logr.Discard(), vScheme(), puller, nil, nil, nil)
+		p := &corev1alpha1.Package{}
+		p.Name, p.Namespace, p.UID, p.Generation = "pkg", "ns", "uid-pkg", 3
+		p.Spec.Image, p.Spec.Paused = "img:v1", true
+		c.Put(p)
+		d := &corev1alpha1.ObjectDeployment{}
+		d.Name, d.Namespace = "pkg", "ns"
+		c.Put(d)
+	}
+	_, err := ctl.Reconcile(context.Background(), ctrl.Request{NamespacedName: types.NamespacedName{Namespace: ns, Name: "pkg"}})
+	verifrt.Assert(err == nil, "C16/controller-pass-succeeds")
+	pausedDeployment := 0
+	for _, call := range c.Calls {
+		if call.Verb == "update" {
+			spec, _ := call.Obj["spec"].(map[string]interface{})
+			p, _ := spec["paused"].(bool)
+			verifrt.Assert(call.Key.Kind == depKind && call.Key.Name == "pkg" && p, "C09/pausing-package-pauses-deployment")
+			pausedDeployment++
+		}
+	}
+	verifrt.Assert(pausedDeployment == 1 && puller.calls == 0, "C09/paused-package-is-not-unpacked")
+	verifrt.Reach("wired")
+}
